@@ -216,6 +216,12 @@ func run(c *Case) *vkit.Outcome {
 		curPlanned.Store(plan[n])
 		switch plan[n] {
 		case "reject":
+			if n%3 == 2 {
+				// the store's own per-operation deadline passed (an HTTP client
+				// timeout, say): a refusal like any other, whatever the bus's
+				// own persistence context says
+				return storekit.Action{Err: fmt.Errorf("store: write timed out: %w (%w)", storekit.ErrInjected, context.DeadlineExceeded)}
+			}
 			if n%2 == 0 {
 				// the same refusal, calling itself temporary: still one attempt, one report
 				return storekit.Action{Err: fmt.Errorf("store: %w", storekit.ErrInjectedTemp)}
